@@ -419,9 +419,9 @@ class CExecPyObj(CExecL3):
             # PySequence_Contains(seq, item) -> 1 / 0 / -1; the Cython wrapper takes (item, seq, eq) and maps the answer through eq
             wrapped = name != "PySequence_Contains"
             a0, a1 = self.oid(self.ev(st, argn[0])), self.oid(self.ev(st, argn[1]))
-            seq, item = (a1, a0) if wrapped else (a0, a1)
+            seq_id, item_id = (a1, a0) if wrapped else (a0, a1)
             r = self.fresh("contains")
-            st.path.append(z3.And(r >= -1, r <= 1, generic(z3.IntVal(OPCODES["contains"]), seq, item, z3.IntVal(0), r)))
+            st.path.append(z3.And(r >= -1, r <= 1, generic(z3.IntVal(OPCODES["contains"]), seq_id, item_id, z3.IntVal(0), r)))
             e2 = self.fresh("err_after_contains")
             st.path.append(z3.Implies(r >= 0, e2 == st.err))
             st.path.append(z3.Implies(r < 0, e2 != 0))
